@@ -33,6 +33,11 @@ type Case struct {
 	STime      int64  `json:"stime"`
 	FlipAt     int    `json:"flip_at"` // selects the corrupted signature bit
 	Seed       uint64 `json:"seed"`
+	// Indirect: how the server's settings reach the connection.  0: the Config given to Server();
+	// 1: that Config comes out of GetConfigForClient of an outer Config that has no certificate
+	// and ClientAuth NoClientCert (the returned Config "will be used to handle this connection");
+	// 2: the certificate comes out of GetCertificate, Certificates is empty.
+	Indirect int `json:"indirect,omitempty"`
 }
 
 const limit = 20 * time.Second
@@ -298,6 +303,20 @@ func check(c Case, r *kit.R) {
 		sc.CipherSuites = []uint16{c.Suite}
 	}
 
+	srvCert := sc.Certificates[0]
+	switch c.Indirect {
+	case 1:
+		inner := sc
+		sc = &tls.Config{Time: inner.Time, Rand: tlsgen.NewRand(c.Seed, 3), ClientAuth: tls.NoClientCert, SessionTicketsDisabled: true,
+			GetConfigForClient: func(*tls.ClientHelloInfo) (*tls.Config, error) { return inner, nil }}
+		r.Class("server config through GetConfigForClient")
+	case 2:
+		cert := sc.Certificates[0]
+		sc.Certificates = nil
+		sc.GetCertificate = func(*tls.ClientHelloInfo) (*tls.Certificate, error) { return &cert, nil }
+		r.Class("server certificate through GetCertificate")
+	}
+
 	var hook tlskit.Hook
 	flipped := false
 	if c.Srv == sBadSKXWire {
@@ -418,7 +437,7 @@ func check(c Case, r *kit.R) {
 	if pingErr != nil {
 		r.Failf("C27:data-after-handshake", "application data did not pass: %v\n%s", pingErr, d())
 	}
-	sentLeaf := sc.Certificates[0].Certificate[0]
+	sentLeaf := srvCert.Certificate[0]
 	if len(cs.PeerCertificates) == 0 || !bytes.Equal(cs.PeerCertificates[0].Raw, sentLeaf) {
 		r.Failf("C27:client-peer-certificates", "client PeerCertificates[0] is not the leaf the server sent\n%s", d())
 	}
@@ -497,6 +516,7 @@ func enumerate(full bool, shard, nshards int, yield func(Case) bool) {
 		}
 		c.FlipAt = idx
 		c.Seed = uint64(idx)
+		c.Indirect = idx % 3
 		return yield(c)
 	}
 	times := []int64{0, -h12 - 1, h12 + 1}
@@ -529,7 +549,7 @@ func enumerate(full bool, shard, nshards int, yield func(Case) bool) {
 	}
 }
 
-const ruleMatrix = "scenario matrix: (TLS 1.0-1.3 x key exchange RSA / ECDHE_RSA / DHE_RSA / ECDHE_ECDSA / TLS 1.3 x server key RSA, ECDSA, Ed25519) x server certificate scenario (ok, ok via intermediate, missing intermediate, untrusted root, untrusted root sent along, untrusted root with the trusted root's name, self-signed, corrupted certificate signature, wrong name, wrong private key, corrupted handshake signature, ServerKeyExchange corrupted on the wire) x client clock (inside / before / after the leaf validity) x InsecureSkipVerify x ClientAuthType (5) x client certificate scenario (none, good, via intermediate, missing intermediate, untrusted, same-name root, self-signed, corrupted certificate signature, serverAuth-only EKU, wrong key, corrupted CertificateVerify) x server clock. Non-trivial: any scenario other than all-good"
+const ruleMatrix = "scenario matrix: (TLS 1.0-1.3 x key exchange RSA / ECDHE_RSA / DHE_RSA / ECDHE_ECDSA / TLS 1.3 x server key RSA, ECDSA, Ed25519) x server certificate scenario (ok, ok via intermediate, missing intermediate, untrusted root, untrusted root sent along, untrusted root with the trusted root's name, self-signed, corrupted certificate signature, wrong name, wrong private key, corrupted handshake signature, ServerKeyExchange corrupted on the wire) x client clock (inside / before / after the leaf validity) x InsecureSkipVerify x ClientAuthType (5) x client certificate scenario (none, good, via intermediate, missing intermediate, untrusted, same-name root, self-signed, corrupted certificate signature, serverAuth-only EKU, wrong key, corrupted CertificateVerify) x server clock; the server settings reach the connection directly, through GetConfigForClient of a permissive outer Config, or (certificate) through GetCertificate, in rotation. Non-trivial: any scenario other than all-good"
 
 func TestPropMatrix(t *testing.T) {
 	kit.Run(t, kit.Spec[Case]{ID: "C27", Name: "matrix", Check: check,
@@ -591,6 +611,7 @@ func gen(t *rapid.T) Case {
 		}
 		c.FlipAt = rapid.IntRange(0, 4000).Draw(t, "flip")
 		c.Seed = rapid.Uint64().Draw(t, "seed")
+		c.Indirect = rapid.IntRange(0, 2).Draw(t, "indirect")
 		if applicable(c) {
 			return c
 		}
